@@ -491,6 +491,9 @@ func (vm *VolumeManager) AddVolume(ctx context.Context, localPath string, maxSec
 
 	volumeID, err := vm.vs.AddVolume(localPath, false)
 	if err != nil {
+		// remove the empty volume file so the call can be retried
+		f.Close()
+		os.Remove(localPath)
 		return Volume{}, fmt.Errorf("failed to add volume to store: %w", err)
 	}
 
